@@ -97,6 +97,22 @@ func (r *Response) WriteTo(w io.Writer) (int64, error) {
 var _ encoding.BinaryMarshaler = (*Response)(nil)
 
 func (r Response) MarshalBinary() ([]byte, error) {
+	// Read the body here rather than inside DumpResponse: if it cannot be read
+	// completely, the response still goes to the caller, who must then see the
+	// bytes received so far followed by the read error - not a spent body that
+	// ends cleanly (net/http bodies report io.EOF after an unexpected EOF).
+	if body := r.Data.Body; body != nil && body != http.NoBody {
+		read, err := io.ReadAll(body)
+		if err != nil {
+			r.Data.Body = &failedBody{Reader: bytes.NewReader(read), err: err, orig: body}
+			return nil, fmt.Errorf("failed to marshal response: %w", err)
+		}
+		if err := body.Close(); err != nil {
+			r.Data.Body = &failedBody{Reader: bytes.NewReader(read), err: err, orig: body}
+			return nil, fmt.Errorf("failed to marshal response: %w", err)
+		}
+		r.Data.Body = io.NopCloser(bytes.NewReader(read))
+	}
 	respBytes, err := httputil.DumpResponse(r.Data, true)
 	if err != nil {
 		return nil, fmt.Errorf("failed to marshal response: %w", err)
@@ -110,6 +126,24 @@ func (r Response) MarshalBinary() ([]byte, error) {
 	buf.Write(respBytes)
 	return buf.Bytes(), nil
 }
+
+// failedBody replays what was read of a body before reading it failed, then
+// reports that failure.
+type failedBody struct {
+	*bytes.Reader
+	err  error
+	orig io.Closer
+}
+
+func (b *failedBody) Read(p []byte) (int, error) {
+	n, err := b.Reader.Read(p)
+	if err == io.EOF {
+		err = b.err
+	}
+	return n, err
+}
+
+func (b *failedBody) Close() error { return b.orig.Close() }
 
 var (
 	errReadBytes       = errors.New("failed to read bytes")
